@@ -301,6 +301,14 @@ def run(rep: Report, tier: str) -> None:
                                 f"{f_.name} is memoised and returns a mutable container (`{src(v)[:60]}`): every caller gets the SAME object, and the promotion functions "
                                 f"edit the set they get (`discard`, `pop`), so the first call empties the cached entry and later promotions of the same pair give a different verdict"))
     rep.instance("R11.6", "memoised-helpers-in-DataTypes", nontrivial=False, sample=ncache)
+    # ---- R11.6 (cont.): no type-rule function of the operator classes is memoised on state outside its key ----
+    from sa import globalsx as _gx
+    nmem = 0
+    for f_, why_, line_ in _gx.memo_findings(P, ("vtlengine.Operators", "vtlengine.DataTypes")):
+        nmem += 1
+        rep.add(Finding("R11.6", f"R11.6/memo/{f_.qualname}", f_.module.rel, line_, f_.qualname,
+                        f"{f_.name} is memoised and {why_}: the result type reported for an operator then depends on which call of the same operand types was analysed first"))
+    rep.instance("R11.6", "memoised-type-rules", nontrivial=False, sample={"findings": nmem})
     rep.assumptions = ["each operator's declared type_to_check is taken as given (no in-repo oracle says which type an "
                        "operator should admit)", "docs/data_types.rst is the oracle for the implicit table"]
     rep.floor("decision-table cells", ncell, 1800)
